@@ -25,6 +25,7 @@ RULE = ('Generated ledgers biased to comment layouts (comment blocks of both ind
         'ending there), S (blank or file boundary on both sides => an entry of a repeated field). Layouts where the documented rule has more than one '
         'reading are counted as undecided and accept anything. Built-documents job: files assembled with Open / Transaction / Posting from_value and comment setters (0-2 meta items, 0-2 postings, posting meta, trailing comments on every subset, a standalone note at the end of a body, an optional following directive with or without a leading comment): where their attribution equals that of parse(printed text), releasing any comment and running auto_claim_comments() on the document, and unclaim_interleaving_comments() + claim_interleaving_comments(), must restore it. Non-trivial = a document with a comment adjacent to models on both sides, or directly '
         'before a dedent, or of a different indentation class than a neighbour.')
+RULE = RULE + ' Round 8: a refused claim_interleaving_comments(released comments + one the list cannot take) must leave uniqueness and attribution as they were.'
 ASSUMPTIONS = ['which repeated field a standalone comment joins is not prescribed', 'among nested models ending on the same line any one may own a trailing comment']
 SHRINK_LISTS = ('ops', 'dirs')
 REQUIRED_CLASSES = ('stage:built', 'rule:L', 'rule:T', 'rule:S', 'rule:X', 'stage:parse-vs-later', 'stage:idempotent', 'stage:unclaim-claim', 'stage:program')
